@@ -105,6 +105,33 @@ def build_text(tokens: list, named: bool) -> tuple[str, dict]:
     return "".join(out), symtab
 
 
+def offset_symbols(tokens: list) -> frozenset:
+    """Names of the symbolic bytes printed as numbers inside offset-mode internal-memory operands."""
+    out = set()
+    depth = 0
+    for i, (k, t) in enumerate(tokens):
+        if k == "TBegMem" and "INTERNAL" in t:
+            depth += 1
+        elif k == "TEndMem" and "INTERNAL" in t:
+            depth -= 1
+        elif depth and k == "TInt" and t.startswith("<") and i >= 1 and tokens[i - 1] == ("TSep", "+"):
+            out |= set(re.findall(r"[A-Za-z_]\w*", t))
+    return frozenset(out)
+
+
+def has_offset_imem_number(tokens: list) -> bool:
+    """A symbolic number inside an internal-memory operand of an offset mode: (BP+n), (PX+n), (PY+n) - printed as a number whatever n is."""
+    depth = 0
+    for i, (k, t) in enumerate(tokens):
+        if k == "TBegMem" and "INTERNAL" in t:
+            depth += 1
+        elif k == "TEndMem" and "INTERNAL" in t:
+            depth -= 1
+        elif depth and k == "TInt" and t.startswith("<") and i >= 1 and tokens[i - 1] == ("TSep", "+"):
+            return True
+    return False
+
+
 def has_symbolic_name(tokens: list) -> bool:
     return any(k == "TText" and t.startswith("<") for k, t in tokens)
 
@@ -151,12 +178,14 @@ def check_form(job: tuple) -> dict:
     sw, aa, cache = _W
     pre, opcode, selector, n, length, cls, name, tokens, il, named, regpair, fixed = job
     out = {"pre": pre, "opcode": opcode, "selector": selector, "named": named, "cls": cls, "name": name, "sig": _mode_sig(tokens), "regpair": regpair, "fixed": fixed}
-    text, symtab = build_text(tokens, named)
+    text, symtab = build_text(tokens, named is True)
     out["text"] = text
     ck = (text, named, tuple(sorted((k, repr(v.bv)) for k, v in symtab.items())))
     if ck not in cache:
         try:
-            cache[ck] = aa.assemble_text(text, symtab, sym_enum="member" if named else "invalid")
+            # "nm": the text is numeric but the number happens to be the address of a named register - what the disassembler prints
+            # for offset modes such as (BP+E6), where it never substitutes the name
+            cache[ck] = aa.assemble_text(text, symtab, sym_enum="member" if named is True else "invalid", member_syms=offset_symbols(tokens) if named == "nm" else frozenset())
         except Unknown as e:
             cache[ck] = {"status": "unknown", "exc": str(e), "symbols": sorted(getattr(e, "symbols", ()))}
     r = cache[ck]
@@ -446,10 +475,12 @@ def run(ctx: Ctx) -> None:
     jobs = []
     for c in forms:
         variants = [True, False] if has_symbolic_name(c.tokens) else [False]
+        if has_offset_imem_number(c.tokens):
+            variants.append("nm")
         for named in variants:
             jobs.append((c.pre, c.opcode, c.selector, c.n, c.length, c.cls, c.name, c.tokens, c.il, named, _regpair(rows, reg_sizes, c), c.fixed))
     # group jobs with equal text onto the same worker (assembly cached per text)
-    jobs.sort(key=lambda j: (str(j[7]), j[9]))
+    jobs.sort(key=lambda j: (str(j[7]), str(j[9])))
     with mp.get_context("fork").Pool(min(16, os.cpu_count() or 4), initializer=_winit) as pool:
         results = pool.map(check_form, jobs, chunksize=24)
         # named internal registers: every register name, in every operand position a name is printed, reads as its number
